@@ -29,7 +29,7 @@ RULE = ("scenario = one conversation (initialize + 1..5 list/call/read/get/ping/
         "several classes, 0..3 notifications before each response, string and integer ids) run over every carrier able to express it, with "
         "per-carrier nuisance (latency, chunking); non-trivial = at least two carriers ran and the conversation has a notification, an error "
         "reply, an integer id or non-ASCII payload")
-PROBES = ["pipelined_requests_late_reader", "result_with_explicit_null_error", "error_reply_with_code_0_or_empty_message", "lone_surrogate_escape_in_server_text", "legacy_sse_untyped_event_with_endpoint_like_payload", "server_greets_at_connection_time", "greeting_in_same_chunk_as_endpoint", "http_session_assigned_with_initialize_result", "http_sse_untyped_events_after_keepalive", "through_mcpclient", "slow_notification_transit_on_http", "over_100_notifications_in_session", "sse_event_before_202", "notifications_before_response", "error_reply", "int_id", "non_ascii_payload", "four_carriers", "nested_nulls"]
+PROBES = ["parameters_object_reused_after_server_restart", "pipelined_requests_late_reader", "result_with_explicit_null_error", "error_reply_with_code_0_or_empty_message", "lone_surrogate_escape_in_server_text", "legacy_sse_untyped_event_with_endpoint_like_payload", "server_greets_at_connection_time", "greeting_in_same_chunk_as_endpoint", "http_session_assigned_with_initialize_result", "http_sse_untyped_events_after_keepalive", "through_mcpclient", "slow_notification_transit_on_http", "over_100_notifications_in_session", "sse_event_before_202", "notifications_before_response", "error_reply", "int_id", "non_ascii_payload", "four_carriers", "nested_nulls"]
 TIERS = {"quick": {"runs": 3000, "wall": 45.0}, "thorough": {"runs": 80000, "wall": 560.0}}
 ASSUMPTIONS = ["fault-free by construction: only latency and chunking vary between carriers",
                "JSON-body HTTP runs only conversations without interleaved notifications (a single JSON object cannot express them)",
@@ -75,7 +75,7 @@ def generate(rng: random.Random, tier: str) -> dict:
                          "notif_transit": rng.choice([0, 0, 40, 300]), "sse_style": rng.choice([None, None, "untyped"]),
                          # a session-keeping Streamable HTTP server: id assigned with the InitializeResult only / repeated on every reply / no sessions
                          "http_session": rng.choice([None, "init_only", "init_only", "every"]),
-                         "ascii_json": rng.random() < 0.2, "legacy_sse_style": rng.choice([None, None, "untyped"])}}
+                         "ascii_json": rng.random() < 0.2, "reuse_params": rng.random() < 0.3, "legacy_sse_style": rng.choice([None, None, "untyped"])}}
 
 
 def simplify(scn):
@@ -373,6 +373,10 @@ def _run_http(scn, sse_bodies: bool):
             hdr = {}
             if mode:
                 is_init = isinstance(posted, dict) and posted.get("method") == "initialize"
+                if is_init and rec["headers"].get("mcp-session-id") is not None:
+                    # an initialize that presents a session id this server (instance) never issued: 404, as for any unknown session
+                    sim.rec("server", "404-unknown-session-on-initialize", None)
+                    return {"latency": ticks(n["lat"]), "status": 404, "headers": {"content-type": "text/plain"}, "chunks": [(0, b"session not found")]}
                 if sess["assigned"] and not is_init and rec["headers"].get("mcp-session-id") != "sess-1":
                     sim.rec("server", "400-missing-session", None)
                     err = {"jsonrpc": "2.0", "id": posted.get("id") if isinstance(posted, dict) else None,
@@ -414,7 +418,23 @@ def _run_http(scn, sse_bodies: bool):
                 from chuk_mcp.transports.http.transport import StreamableHTTPTransport
                 await _converse_mcp(sim, scn, StreamableHTTPTransport(StreamableHTTPParameters(url="http://sim.test/mcp", timeout=10.0)), st)
             else:
-                async with httpmod.http_client(StreamableHTTPParameters(url="http://sim.test/mcp", timeout=10.0)) as (r, w):
+                params_obj = StreamableHTTPParameters(url="http://sim.test/mcp", timeout=10.0)
+                if mode and n.get("reuse_params"):
+                    # an earlier connection built from the same parameters object got a session; then the server was restarted
+                    ini_ = importlib.import_module("chuk_mcp.protocol.messages.initialize.send_messages")
+                    with patched((_uuid, "uuid4", FakeUUID(777))):   # (its own id source: the main conversation's ids stay what they are)
+                        async with httpmod.http_client(params_obj) as (r0, w0):
+                            try:
+                                await ini_.send_initialize(r0, w0, timeout=5.0)
+                                sm_ = importlib.import_module("chuk_mcp.protocol.messages.send_message")
+                                await sm_.send_message(r0, w0, "x/raw", {"q": "earlier connection"}, timeout=5.0)
+                            except Exception:
+                                pass
+                    sess["assigned"] = False
+                    scn["_initialized_seen"] = False
+                    scn["_counter"][0] = 0
+                    sim.probe("parameters_object_reused_after_server_restart")
+                async with httpmod.http_client(params_obj) as (r, w):
                     await _converse(sim, scn, r, w, st)
     return main, st
 
